@@ -78,7 +78,7 @@ def _expr_queries(e):
     if isinstance(e, gen.Scalar):
         yield from from_items(e.q)
     elif isinstance(e, gen.Func):
-        for a in e.args:
+        for a in list(e.args) + ([e.tail[1]] if e.tail is not None else []):
             yield from _expr_queries(a)
     elif isinstance(e, gen.Case):
         for c, r in e.whens:
@@ -197,7 +197,7 @@ def reentrant_slots(st):
             if True:   # also a scalar subquery used directly as a select item re-enters
                 out.update(m.lower() for m in PLACEHOLDER.findall(gen.Renderer().query(e.q)))
         elif isinstance(e, gen.Func):
-            for a in e.args:
+            for a in list(e.args) + ([e.tail[1]] if e.tail is not None else []):
                 ex(a, True)
         elif isinstance(e, gen.Case):
             for c, r in e.whens:
